@@ -233,7 +233,40 @@ Theorem C18_model_is_source_dbal_subsample : forall n_thetas max_combos,
 Proof. exact src_dbal_subsample_is_model. Qed.
 Print Assumptions C18_model_is_source_dbal_subsample.
 
+(* FixedSizeSmoother._smooth_plates (whole method), for ANY screen type, size / plates functions and meaning of
+   screen.subset(v).to_screen(); all answers *)
+Theorem C18_model_is_source_fixed_size_smoother :
+  forall (Scr : Type) (scr_size : Scr -> Z) (scr_plates : Scr -> list (list bool)) (mk_subset : Scr -> list bool -> result Scr)
+         plate_size screen,
+  prog_eq_on any_answer
+    (src_fixed_size_smooth Scr scr_size scr_plates mk_subset plate_size screen)
+    (bind (size_smoother_prog (scr_plates screen) (scr_size screen) plate_size) (fun v => Ret (mk_subset screen v))).
+Proof. exact src_fixed_size_is_model. Qed.
+Print Assumptions C18_model_is_source_fixed_size_smoother.
+
+(* OptimalSizeSmoother._smooth_plates (whole method); the three numpy statements that pick the size are ANY request-free
+   function [opt_size] of the list of plate sizes, possibly raising *)
+Theorem C18_model_is_source_optimal_size_smoother :
+  forall (Scr : Type) (scr_size : Scr -> Z) (scr_plates : Scr -> list (list bool)) (mk_subset : Scr -> list bool -> result Scr)
+         (opt_size : list Z -> result Z) screen,
+  prog_eq_on any_answer
+    (src_optimal_size_smooth Scr scr_size scr_plates mk_subset opt_size screen)
+    (match opt_size (map count_true (scr_plates screen)) with
+     | Err e => Ret (Err e)
+     | Ok t => bind (size_smoother_prog (scr_plates screen) (scr_size screen) t) (fun v => Ret (mk_subset screen v))
+     end).
+Proof. exact src_optimal_size_is_model. Qed.
+Print Assumptions C18_model_is_source_optimal_size_smoother.
+
 (* the trace theorems, now about the translated source *)
+Theorem C18_source_fixed_size_smoother_trace :
+  forall (Scr : Type) (scr_size : Scr -> Z) (scr_plates : Scr -> list (list bool)) (mk_subset : Scr -> list bool -> result Scr)
+         plate_size screen answers out reqs,
+  run (src_fixed_size_smooth Scr scr_size scr_plates mk_subset plate_size screen) answers = Ok (out, reqs) ->
+  reqs = map (size_smoother_req (scr_size screen) plate_size) (filter (fun v => plate_size <? count_true v) (scr_plates screen)).
+Proof. exact src_fixed_size_trace. Qed.
+Print Assumptions C18_source_fixed_size_smoother_trace.
+
 Theorem C18_source_random_scorer_trace : forall plates answers, NoDup plates ->
   (length plates <= length answers)%nat ->
   run (src_random_scorer_score plates) answers
@@ -284,4 +317,19 @@ Proof. vm_compute. split; reflexivity. Qed.
 Example C18_source_dbal_subsample_example :
   run (src_dbal_subsample 8 30) [[1; 2; 3]] = Ok (Ok [1; 2; 3], [RChoiceN 56 30 false])
   /\ run (src_dbal_subsample 2 30) [] = Ok (Err 4, []).
+Proof. vm_compute. split; reflexivity. Qed.
+
+(* 6 rows; plates {0,1,2}, {3,4}, {5}; size 2: the first is sub-sampled to the answer, the second kept, the third dropped *)
+Example C18_source_fixed_size_example :
+  let plates := [[true; true; true; false; false; false]; [false; false; false; true; true; false];
+                 [false; false; false; false; false; true]] in
+  run (src_fixed_size_smooth unit (fun _ => 6) (fun _ => plates) (fun _ v => if nth 5 v false then Err 7 else Ok tt) 2 tt) [[2; 0]]
+  = Ok (Ok tt, [RChoice [0; 1; 2] 2 false])
+  /\ run (size_smoother_prog plates 6 2) [[2; 0]] = Ok ([true; false; true; true; true; false], [RChoice [0; 1; 2] 2 false]).
+Proof. vm_compute. split; reflexivity. Qed.
+Example C18_source_optimal_size_example :
+  let plates := [[true; true; true; false; false; false]; [false; false; false; true; true; false]] in
+  run (src_optimal_size_smooth unit (fun _ => 6) (fun _ => plates) (fun _ _ => Ok tt) (fun sizes => Ok (fold_right Z.min 9 sizes)) tt) [[1; 2]]
+  = Ok (Ok tt, [RChoice [0; 1; 2] 2 false])
+  /\ run (src_optimal_size_smooth unit (fun _ => 6) (fun _ => plates) (fun _ _ => Ok tt) (fun _ => Err 3) tt) [] = Ok (Err 3, []).
 Proof. vm_compute. split; reflexivity. Qed.
